@@ -425,6 +425,13 @@ def gen_ix_preds(rng):
                     copt = True
                 roles.insert(pos, ["CARG", "string", copt])
             syns.append(roles)
+        r_ = rng.random()
+        if r_ < 0.10:
+            syns = [[]] if rng.random() < 0.5 else [[["CARG", "string", False]]]      # no roles at all / CARG only
+        elif r_ < 0.22 and len(syns[0]) >= 3 and all(not x[2] for x in syns[0]):
+            # a longer all-required synopsis listed before a shorter one that skips one of its middle roles
+            k_ = rng.randrange(1, len(syns[0]) - 1)
+            syns = [syns[0], syns[0][:k_] + syns[0][k_ + 1:]]
         preds[p] = syns
     return preds
 
@@ -454,6 +461,11 @@ def gen_ix_mrs(rng, preds=None):
         roles = list(syn)
         while roles and roles[-1][2] and rng.random() < 0.5:
             roles.pop()
+        d_ = rng.random()
+        if d_ < 0.12:
+            roles = [x for x in roles if x[0] == "CARG"]          # no variable argument at all (maybe CARG only)
+        elif d_ < 0.20:
+            roles = [x for x in roles if x[0] in ("ARG0", "CARG")]    # ARG0 only
         args = []
         for r, v, o in roles:
             if r == "CARG":
@@ -521,7 +533,7 @@ def ix_unambiguous(mj, preds=None):
                     break
         if chosen is None:
             for syn in preds[p]:
-                if fits(syn, types):
+                if not types or fits(syn, types):      # find_synopsis: `if not args or …` -> first synopsis
                     chosen = syn
                     break
         if chosen is None:
